@@ -377,11 +377,11 @@ ALL_KINDS = SYNC_KINDS + ASYNC_KINDS
 
 
 class SrcState:
-    __slots__ = ("name", "kind", "pulls", "ended", "failed", "closes", "obj", "started")
+    __slots__ = ("name", "kind", "pulls", "ended", "failed", "closes", "obj", "started", "iters")
 
     def __init__(self, name, kind):
         self.name, self.kind = name, kind
-        self.pulls = self.ended = self.failed = self.closes = 0
+        self.pulls = self.ended = self.failed = self.closes = self.iters = 0
         self.obj = None
         self.started = False
 
@@ -392,8 +392,11 @@ class SrcState:
         return self.closes > 0 or self.ended > 0
 
     def summary(self):
-        return {"pulls": self.pulls, "ended": self.ended, "failed": self.failed, "closes": self.closes,
-                "released": self.released() if self.kind in ASYNC_KINDS else None}
+        out = {"pulls": self.pulls, "ended": self.ended, "failed": self.failed, "closes": self.closes,
+               "released": self.released() if self.kind in ASYNC_KINDS else None}
+        if self.kind == "list":
+            out["iters"] = self.iters      # how often an iterator was requested from the real list
+        return out
 
 
 def _respond(script, idx, st, log):
@@ -454,7 +457,15 @@ class SeqSource:
 
 
 class ListSource(list):
-    """a real list (no instrumentation possible on pulls); content = items of the script"""
+    """a real list (no instrumentation possible on pulls); content = items of the script.  What CAN be seen is how often
+    an iterator is requested from it: a tool that re-iterates its argument (instead of keeping what it fetched), or hands
+    out several independent iterators, differs from its stdlib namesake as soon as the list changes in between"""
+    _st = None
+
+    def __iter__(self):
+        if self._st is not None:
+            self._st.iters += 1
+        return list.__iter__(self)
 
 
 class AObjSource:
@@ -570,6 +581,7 @@ def make_source(kind, script, name, log, susp=0, close_susp=0):
     st = SrcState(name, kind)
     if kind == "list":
         obj = ListSource(v for t, v in script if t == "item")
+        obj._st = st
     elif kind == "seq":
         obj = SeqSource(script, st, log)
     elif kind == "iter":
